@@ -125,7 +125,7 @@ func load(o *opts) (*ssa.Package, types.Sizes) {
 	env := os.Environ()
 	if o.pam {
 		addPamShim(overlay)
-		env = append(env, "CGO_LDFLAGS=-L"+filepath.Join(verifRoot(), "gosym", "pam"))
+		env = append(env, "CGO_LDFLAGS=-L"+filepath.Join(verifRoot(), "pamshim"))
 	}
 	cfg := &packages.Config{Mode: packages.LoadAllSyntax, Dir: o.repo, Overlay: overlay, Env: env, ParseFile: parseFileStripped}
 	pkgs, err := packages.Load(cfg, "./"+o.pkg)
@@ -293,7 +293,7 @@ func clearSoftErrors(pkgs []*packages.Package) {
 
 func addPamShim(overlay map[string][]byte) {
 	P := "/root/go/pkg/mod/github.com/msteinert/pam@v0.0.0-20190215180659-f29b9f28d6f9/"
-	d := filepath.Join(verifRoot(), "gosym", "pam")
+	d := filepath.Join(verifRoot(), "pamshim")
 	rd := func(f string) []byte {
 		b, err := os.ReadFile(filepath.Join(d, f))
 		if err != nil {
@@ -301,9 +301,9 @@ func addPamShim(overlay map[string][]byte) {
 		}
 		return b
 	}
-	overlay[P+"transaction.go"] = rd("transaction.go.shim")
-	overlay[P+"callback.go"] = rd("callback.go.shim")
-	overlay[P+"transaction.c"] = rd("transaction.c.shim")
+	overlay[P+"transaction.go"] = rd("transaction.go")
+	overlay[P+"callback.go"] = rd("callback.go")
+	overlay[P+"transaction.c"] = rd("transaction.c")
 }
 
 func fatal(f string, a ...interface{}) {
